@@ -154,6 +154,16 @@ def g_riemann():
     return functions_group('riemann/utils.py', 'Riemann', specs, inst_attrs=IG)
 
 
+
+@group('mader')
+def g_mader():
+    """Mader rarefaction: the per-cell function rare() (fan cell average, transition cell that straddles the tail of the
+    Taylor wave, constant state); the loop over cells in mader() is a map with dx = (x[-1]-x[0])/len(x)"""
+    specs = [('mader', 'rare', [('time', 't'), ('xlab', 'xlab'), ('dx', 'dx'), ('p_cj', 'p_cj'), ('d_cj', 'd_cj'), ('gam', 'gam'), ('u_piston', 'u_piston')],
+              ['u', 'p', 'c', 'rho', 'xdet'])]
+    return functions_group('mader/rarefaction.py', 'Mader', specs)
+
+
 def methods_group(relpath, outname, specs):
     """specs: list of (coq prefix, class, [self attribute names], [(method, [arg names])])"""
     from gen import translate_method, nan_cond, strip_nan
